@@ -227,4 +227,19 @@ def prints(i):
     t = make(i)
     print("output", i)
     return i * 2
+
+
+def uses_random(i):
+    """a program with its own use of the `random` module: seeded, some traced calls, then it draws"""
+    import random
+    random.seed(i)
+    first = random.random()
+    for j in range(5):
+        passthrough(j)
+        plain_value(j)
+    return (first, random.random(), random.randrange(1000))
+
+
+def plain_value(j):
+    return [j]
 '''
